@@ -1222,6 +1222,27 @@ def c13(ctx):
         lines3[k3] += " // deno-lint-ignore" + (" " + word if word else "")
         progs.append({"src": rng.choice(["", "", "#!/usr/bin/env node\n"]) + eol.join(lines3) + eol, "media": rng.choice(["ts", "js", "mjs", "tsx"]), "rule": rule,
                       "sites": None, "origin": "directive-trailing-on-a-line"})
+    # names the rules know about that this check does not: every identifier-like string literal of the two rule files is probed, and the ones
+    # that are reported as globals go through every reference template (shorthand properties and type queries included), property level only
+    import itertools as _it
+    for rule, rfile in (("no-node-globals", "no_node_globals.rs"), ("no-process-global", "no_process_global.rs")):
+        txt = open(os.path.join(lib.REPO, "src", "rules", rfile)).read()
+        txt = txt[:txt.find("#[cfg(test)]")] if "#[cfg(test)]" in txt else txt
+        cands = sorted(set(re.findall(r'"([A-Za-z_$][\w$]*)"', txt)))
+        probe = lib.run_vh("lint", [{"src": "%s;" % nm, "media": "ts", "rules": [rule]} for nm in cands])
+        found = [nm for nm, r0 in zip(cands, probe) if status(r0) == "ok" and rule_diags(r0, rule)]
+        known = set(NODE_NAMES) | {"process"}
+        for nm in found:
+            for tpl in G_FLAGGED + ["let t9: typeof @;", "type T9 = typeof @;", "x = { @, y: 1 };", "export { @ };", "x = <@.Y />;", "class K9 extends @ {}", "label9: @;"]:
+                if nm in known and tpl in G_FLAGGED:
+                    continue
+                for head in ("", "import a from 'b';\n"):
+                    progs.append({"src": head + tpl.replace("@", nm) + "\n", "media": "tsx" if "<@" in tpl else "ts", "rule": rule, "sites": None, "origin": "discovered-name"})
+    # jsx-curly-braces: sequences of children whose braces open and close on different lines
+    CH = ['{" "}', '{"some text"}', '{"a"\n}', '{\n"b"}', "text", "\n", "{'x'}", '{" "}\n', "<b/>", '{"c"\n  }']
+    for seq in _it.product(CH, repeat=3):
+        if rng.random() < (0.35 if ctx.tier == "quick" else 1.0):
+            progs.append({"src": "x = <p>" + "".join(seq) + "</p>;", "media": "jsx", "rule": "jsx-curly-braces", "sites": None, "origin": "curly-children-sequence"})
     results = lib.run_vh("lint", [{"src": p["src"], "media": p["media"], "rules": [p["rule"]]} for p in progs], per_case_timeout=5)
     run_builds(progs)
     # ---- correspondence: builders
